@@ -421,6 +421,16 @@ fn random_case_unchecked(rng: &mut Rng) -> Case {
     }
     path_t.push_str("/end");
     path_v.push_str("/end");
+    // under the case policy the static text of the rule and of the request may differ in letter case: the rule
+    // still matches and the captures are still taken (from the request as sent)
+    if cfg.ignore_path_and_query_case && rng.coin() {
+        let upper = |s: &str| format!("/C10{}/END", &s["/c10".len()..s.len() - "/end".len()]);
+        if rng.coin() {
+            path_t = upper(&path_t);
+        } else {
+            path_v = upper(&path_v);
+        }
+    }
     // a query marker whose value is empty makes the parameter syntactically different; keep such cases for the path only
     let full_t = if query_t.is_empty() { path_t.clone() } else { format!("{path_t}?{query_t}") };
     let full_v = if query_v.is_empty() { path_v.clone() } else { format!("{path_v}?{query_v}") };
